@@ -311,6 +311,22 @@ pub fn gen_c10(tier: &str, rng: &mut Rng, w: &mut dyn Write) {
         tok_line(w, "parse_token", format!("KK:{}", l).as_bytes());
         tok_line(w, "parse_range", format!("KK:{},QQ", l).as_bytes());
     }
+    // very long weight literals whose first fractional digit is not 0: a conversion that accumulates digits in a machine
+    // float leaves the range of f32 after 39 digits and of f64 after 309 (inf / inf = NaN); all nines, `1.000…0`, and
+    // seeded digit strings, on a token, a single combo and a list
+    for len in [25usize, 37, 38, 39, 40, 41, 45, 60, 100, 308, 309, 310, 330, 400] {
+        let nines = format!("0.{}", "9".repeat(len));
+        let one = format!("1.{}", "0".repeat(len));
+        let mut rnd = String::from("0.");
+        for i in 0..len {
+            rnd.push((b'0' + if i == 0 { 1 + rng.below(9) as u8 } else { rng.below(10) as u8 }) as char);
+        }
+        for l in [nines, one, rnd] {
+            tok_line(w, "parse_token", format!("AA:{}", l).as_bytes());
+            tok_line(w, "parse_token", format!("Td9d:{}", l).as_bytes());
+            tok_line(w, "parse_range", format!("K9s+:{},QQ", l).as_bytes());
+        }
+    }
     shapes_stream(w);
     // all 52 x 52 card-pair tokens, including both cards equal
     for a in 0..52 {
